@@ -132,7 +132,17 @@ func TestC15Race(t *testing.T) {
 						atomic.StoreInt32(&overlap, 1)
 					}
 					// route: edit, fix, forward to everybody else
-					if m, ok := e.Message().(*common.MessageDebug); ok && atomic.AddInt32(&routed, 1)%2 == 0 {
+					if ff, isV2 := e.Frame.(*frame.V2Frame); isV2 && atomic.LoadInt32(&routed)%5 == 4 {
+						// pass the frame on as it is, then re-stamp a copy of it (another origin) and send that
+						// back: two frame values, the second one fixed while the first is on its way out
+						atomic.AddInt32(&routed, 1)
+						n.WriteFrameExcept(e.Channel, e.Frame) //nolint:errcheck
+						cp := *ff
+						cp.SystemID ^= 0x40
+						if err := n.FixFrame(&cp); err == nil {
+							n.WriteFrameTo(e.Channel, &cp) //nolint:errcheck
+						}
+					} else if m, ok := e.Message().(*common.MessageDebug); ok && atomic.AddInt32(&routed, 1)%2 == 0 {
 						m.Value += 1
 						if err := n.FixFrame(e.Frame); err == nil {
 							n.WriteFrameExcept(e.Channel, e.Frame) //nolint:errcheck
@@ -210,7 +220,10 @@ func TestC15Race(t *testing.T) {
 						bad := tagged(byte(i+1), k, "debug", true, nil, 0)
 						bad.Checksum ^= 0x0101
 						p.Feed(bad.Bytes())
-						p.Feed([]byte{0x01, 0x02})
+						// stray bytes between frames: the same values on every link at about the same moment, other
+						// values two milliseconds later (0xFD / 0xFE left out: they would start a frame)
+						jb := byte(3 + (time.Now().UnixNano()/2000000)%248)
+						p.Feed([]byte{jb, jb ^ 1})
 					}
 					time.Sleep(300 * time.Microsecond)
 				}
